@@ -1203,3 +1203,100 @@ def _diff_field(a, b):
         if a.get(k) != b.get(k):
             return k
     return "?"
+
+
+# ------------------------------------------------------------------ C18
+
+
+def convert_attrs(desc, tok, attrs, a_internal, b_internal):
+    """Attribute conversion when a use moves from symbol A to symbol B,
+    written down from the ABI documentation (abi.py docstrings), per access
+    type: control flow / data reference in code / data."""
+    if tok.kind == "insn" and tok.ikind in ("jmp", "jcc", "call"):
+        access = "cf"
+    elif tok.kind == "insn":
+        access = "code"
+    else:
+        access = "data"
+    attrs = tuple(sorted(attrs))
+    rules = []
+    if desc["fmt"] == "elf" and desc["isa"] in ("x64", "ia32"):
+        if desc.get("pie"):
+            rules = [("code", (), ("GOT", "PCREL")), ("cf", (), ("PLT",))]
+        else:
+            rules = [("cf", (), ("PLT",)), ("code", (), ("PLT",))]
+    elif desc["fmt"] == "elf" and desc["isa"] == "arm64" and desc.get("pie"):
+        rules = [("code", ("LO12",), ("GOT", "LO12")), ("code", (), ("GOT",))]
+    for acc, internal_attrs, external_attrs in rules:
+        if acc != access:
+            continue
+        cur = internal_attrs if a_internal else external_attrs
+        if attrs == tuple(sorted(cur)):
+            return tuple(sorted(internal_attrs if b_internal else external_attrs))
+    return attrs
+
+
+def check_c18(mt, sess):
+    """The model already holds the retargeted expressions; compare
+    expressions (C04 machinery), CFI / symbolForwarding mentions and the
+    CFG (C03 machinery), translating their verdicts into C18's classes."""
+    world, model = mt.world, mt.model
+    m = world.module
+    pairs = dict(sess.retargets)
+    sig_base = {"retargets": len(pairs), "layout_reordered": bool(mt.obs.reordered)}
+    try:
+        check_c04(mt, sess)
+    except core.Violation as v:
+        w = v.witness or {}
+        real = w.get("real")
+        exp = w.get("expected")
+        cls = "collateral-change"
+        involved = [n for n in list(pairs) + list(pairs.values()) if (real and n in map(str, real)) or (exp and n in map(str, exp))]
+        if v.vclass in ("expr-moved", "expr-lost", "expr-spurious") and involved:
+            cls = "mention-left" if real and any(a in map(str, real) for a in pairs) else "collateral-change"
+        elif v.vclass == "expr-attrs/addend" and involved:
+            cls = "wrong-attrs"
+        raise core.Violation("C18", cls, {"from": v.vclass, **(w if isinstance(w, dict) else {"w": w})}, {**sig_base, "via": v.vclass, **{k: v.sig[k] for k in v.sig if k in ("origin", "table", "kind")}})
+    # CFI personality / LSDA and symbolForwarding
+    pre = getattr(sess, "c18_pre", None) or {"cfi": [], "fwd": []}
+    cfi = m.aux_data.get("cfiDirectives")
+    now = []
+    if cfi is not None:
+        for key, dirs in cfi.data.items():
+            for d in dirs:
+                if isinstance(d[2], gtirb.Symbol):
+                    now.append((d[0], d[2].name))
+    want = sorted((d, pairs.get(n, n)) for d, n in pre["cfi"])
+    if sorted(now) != want and not any(op["k"] in ("del", "delblock", "rep", "delfn") for op in sess.desc["ops"]):
+        raise core.Violation("C18", "mention-left" if any(n in pairs for _, n in now) else "collateral-change", {"table": "cfiDirectives", "expected": want[:6], "real": sorted(now)[:6]}, {**sig_base, "via": "cfi"})
+    fwd = m.aux_data.get("symbolForwarding")
+    nowf = sorted((a.name, b.name) for a, b in fwd.data.items()) if fwd is not None else []
+    wantf = sorted((a, pairs.get(b, b)) for a, b in pre["fwd"])
+    if nowf != wantf:
+        raise core.Violation("C18", "mention-left" if any(b in pairs for _, b in nowf) else "collateral-change", {"table": "symbolForwarding", "expected": wantf[:6], "real": nowf[:6]}, {**sig_base, "via": "symbolForwarding"})
+    try:
+        check_c03(mt, sess)
+    except core.Violation as v:
+        types = v.sig.get("types") or []
+        if types == ["Return"]:
+            cls = "return-edges"
+        elif v.vclass == "missing-edge":
+            cls = "edge-not-moved"
+        else:
+            cls = "edge-moved-wrongly"
+        raise core.Violation("C18", cls, v.witness, {**sig_base, "via": v.vclass, "types": types, "insn_kind": v.sig.get("insn_kind"), "origin": v.sig.get("origin")})
+
+
+def c18_pre(world):
+    m = world.module
+    cfi = m.aux_data.get("cfiDirectives")
+    out = {"cfi": [], "fwd": []}
+    if cfi is not None:
+        for key, dirs in cfi.data.items():
+            for d in dirs:
+                if isinstance(d[2], gtirb.Symbol):
+                    out["cfi"].append((d[0], d[2].name))
+    fwd = m.aux_data.get("symbolForwarding")
+    if fwd is not None:
+        out["fwd"] = sorted((a.name, b.name) for a, b in fwd.data.items())
+    return out
